@@ -195,6 +195,10 @@ def weights (g : SGraph) : State :=
   let st := st.map (fun (n, w) => (n, w.map (fun (k, v) => (k, if v ≥ cap - 1 then infinite else v))))
   iterate cap g (g.length + 2) st
 
+/-- the state is a fixed point of one propagation round (evaluated by the driver on every input: the
+    fuel of `iterate` is generous but its sufficiency is not proved) -/
+def isFixpoint (g : SGraph) (st : State) : Bool := stepState (g.length + 2) g st == st
+
 /-! ### well-foundedness -/
 def succsAll (g : SGraph) (n : String) (hopOk : Bool) : List String :=
   match g.find? (·.name == n) with
